@@ -441,3 +441,45 @@ Section EpanTerm.
     exists lo, hi, clo, chi. auto.
   Qed.
 End EpanTerm.
+
+(* ====================================================================== *)
+(* 5. grouped for Properties/C12.v                                          *)
+(* ====================================================================== *)
+Lemma G_bounds_search_terminates :
+  (* bisect on a Lipschitz function: n halvings suffice when (high - low) L <= 2 tol 2^n *)
+  (forall (f : Q -> Q) (L tol : Q), 0 < L -> 0 < tol ->
+     (forall x y : Q, x <= y -> f y - f x <= L * (y - x)) ->
+     forall (low high : Q) (n fuel : nat), low <= high -> f low <= tol -> - tol <= f high -> (n < fuel)%nat ->
+       (high - low) * L <= 2 * tol * qpow 2 n ->
+       exists x : Q, bisect f low high tol fuel = BisRet x true) /\
+  (forall (F : Q -> Q) (L A B : Q), 0 < L ->
+     (forall x y : Q, x <= y -> F y - F x <= L * (y - x)) ->
+     (forall x : Q, x <= A -> F x <= lowY) -> (forall x : Q, B <= x -> highY <= F x) ->
+     (* the bracket expansion: n steps suffice when n initial widths reach A resp. B *)
+     (forall (fuel n : nat) (lowX highX : Q), (n < fuel)%nat -> lowX < highX ->
+        lowX - Qofnat n * (highX - lowX) <= A ->
+        exists r : Q, expand_low F fuel lowX highX = Some r /\ r <= lowX /\ F r <= lowY) /\
+     (forall (fuel n : nat) (lowX highX : Q), (n < fuel)%nat -> lowX < highX ->
+        B <= highX + Qofnat n * (highX - lowX) ->
+        exists r : Q, expand_high F fuel lowX highX = Some r /\ highX <= r /\ highY <= F r) /\
+     (* the whole search *)
+     (forall (b : bconf) (xs : list Q), b <> BBad -> xs <> [] ->
+        exists fuel0 : nat, forall fuel : nat, (fuel0 <= fuel)%nat ->
+          exists lo hi : Q, bounds_search F b fuel xs = BrOk lo hi)) /\
+  (forall h s t : Q, 0 < h -> s <= t -> epan_cdf h t - epan_cdf h s <= (3 # 4) / h * (t - s)) /\
+  (forall k : kde, kde_ok k -> k_kernel k = KEpan -> bounds_ok_half k ->
+     (forall x y : Q, x <= y -> kde_cdf_q k y - kde_cdf_q k x <= 2 * ((3 # 4) / k_h k) * (y - x)) /\
+     exists fuel0 : nat, forall fuel : nat, (fuel0 <= fuel)%nat ->
+       exists lo hi clo chi : Q, kde_bounds_search k fuel = BrOk lo hi /\
+         kde_cdf k lo = Some (XFin clo) /\ kde_cdf k hi = Some (XFin chi) /\
+         kde_bounds_ok (k_b k) (XFin lo) (XFin hi) (chi - clo) = true).
+Proof.
+  split; [|split; [|split]].
+  - intros f L tol HL Ht Lip low high n fuel. apply (bisect_terminates f L tol HL Ht Lip).
+  - intros F L A B HL Lip TA TB. split; [|split].
+    + intros fuel. apply (expand_low_terminates F A TA fuel).
+    + intros fuel. apply (expand_high_terminates F B TB fuel).
+    + apply (bounds_search_terminates F L A B HL Lip TA TB).
+  - exact epan_cdf_lipschitz.
+  - intros k ok kern hok. split; [apply kde_cdf_q_lipschitz; assumption | apply kde_bounds_search_terminates; assumption].
+Qed.
